@@ -124,6 +124,28 @@ POLICIES = {
 }
 
 
+def writer_direction(root, files, wbuf):
+    """the async writer's output is readable by CPython's tarfile"""
+    sink = Sink()
+
+    async def w():
+        async with aiotarstream.open(stream=sink, mode="w", format=tarfile.GNU_FORMAT, copybufsize=wbuf) as tar:
+            await tar.add(os.path.join(root, "src"), arcname="src")
+
+    try:
+        asyncio.run(w())
+    except Exception as e:  # noqa
+        return {"failure": f"writing the tree with the async tar writer raised {type(e).__name__}: {e}", "copybufsize": wbuf}
+    try:
+        with tarfile.open(fileobj=io.BytesIO(bytes(sink.buf))) as t:
+            for name, data in files.items():
+                if t.extractfile("src/" + name).read() != data:
+                    return {"failure": "archive written by the async writer is not read back by tarfile", "member": name, "copybufsize": wbuf}
+    except (tarfile.TarError, KeyError, EOFError) as e:
+        return {"failure": f"the archive written by the async writer is not readable by tarfile: {type(e).__name__}: {e}", "copybufsize": wbuf}
+    return None
+
+
 def search(n):
     root = tempfile.mkdtemp(prefix="c23.")
     os.umask(0o022)
@@ -201,23 +223,10 @@ def search(n):
                 if err == "HANG":
                     return {"failure": "truncated archive makes the copy hang", "format": fmt, "chunking": pname, "cut_at": cut, "archive_len": len(data)}
         # writer direction: the async writer's output is readable by CPython's tarfile
-        sink = Sink()
-
-        async def w():
-            async with aiotarstream.open(stream=sink, mode="w", format=tarfile.GNU_FORMAT, copybufsize=rng.choice([None, 1000, 49152])) as tar:
-                await tar.add(os.path.join(root, "src"), arcname="src")
-
-        try:
-            asyncio.run(w())
-        except Exception as e:  # noqa
-            return {"failure": f"writing the tree with the async tar writer raised {type(e).__name__}: {e}"}
-        try:
-            with tarfile.open(fileobj=io.BytesIO(bytes(sink.buf))) as t:
-                for name, data in files.items():
-                    if t.extractfile("src/" + name).read() != data:
-                        return {"failure": "archive written by the async writer is not read back by tarfile", "member": name}
-        except (tarfile.TarError, KeyError, EOFError) as e:
-            return {"failure": f"the archive written by the async writer is not readable by tarfile: {type(e).__name__}: {e}"}
+        for wbuf in (1000, 3000, rng.choice([None, 49152])):  # (copy buffer sizes that are not powers of two, too)
+            bad = writer_direction(root, files, wbuf)
+            if bad:
+                return bad
     finally:
         shutil.rmtree(root, ignore_errors=True)
     return None
